@@ -92,19 +92,22 @@ let op_rl_relay a =
   let g = !rl_g in
   let g = if pn > rl_big_threshold then { g with bok = false } else g in
   let sec = rl_sec_of_key (str a "sec" "-") in
-  let line logged live item =
+  let line logged live item eps0 eps1 =
     let live = List.sort compare (List.map int_of_z live) in
     let ls = String.concat ";" (List.map (fun i -> Printf.sprintf "%d=%s" i item) live) in
-    Printf.sprintf "rl_relay logged=%d live=%s" (if logged then 1 else 0) (if ls = "" then "-" else ls) in
+    Printf.sprintf "rl_relay logged=%d live=%s conn=%s pos0=%s pos=%s" (if logged then 1 else 0) (if ls = "" then "-" else ls)
+      (String.concat "" (List.map (fun e -> if e.rl_ep_conn then "1" else "0") eps0))
+      (String.concat "," (List.map (fun e -> zs e.rl_ep_pos) eps0))
+      (String.concat "," (List.map (fun e -> zs e.rl_ep_pos) eps1)) in
   let lb = ref "" and lx = ref "" in
   let g = if g.bok then begin
       let msg = rl_x_expand xm in
       let r = rl_relay rl_topo0 (z_of_int !now) sec msg g.b in
-      lb := line r.rl_rl_logged r.rl_rl_live (rl_item_string (RlOutMsg msg));
+      lb := line r.rl_rl_logged r.rl_rl_live (rl_item_string (RlOutMsg msg)) g.b.rl_eps r.rl_rl_st.rl_eps;
       { g with b = r.rl_rl_st } end else g in
   let g = if g.xok then begin
       let r = rl_x_relay rl_topo0 (z_of_int !now) sec xm g.x in
-      lx := line r.rl_xrl_logged r.rl_xrl_live (rl_xmsg_string xm);
+      lx := line r.rl_xrl_logged r.rl_xrl_live (rl_xmsg_string xm) g.x.rl_x_eps r.rl_xrl_st.rl_x_eps;
       { g with x = r.rl_xrl_st } end else g in
   rl_g := g;
   rl_emit2 (fun () -> !lb) (fun () -> !lx)
@@ -162,6 +165,42 @@ let op_rl_recv a =
     let lb = ref "" and lx = ref "" in
     let g = if g.bok then (let (acc, st) = rl_recv zid ts g.b in lb := line acc; { g with b = st }) else g in
     let g = if g.xok then (let (acc, st) = rl_x_recv zid ts g.x in lx := line acc; { g with x = st }) else g in
+    rl_g := g;
+    rl_emit2 (fun () -> !lb) (fun () -> !lx) end
+
+(* rl_from e=ID ts=N sec=K id=N [oz=<zone key>]: RlOrigin.rl_from / rl_x_from *)
+let rl_zone_keys = ["zp"; "zm"; "za"; "zb"; "zc"; "zg"]
+let rl_zone_id k = let rec f i = function [] -> -1 | x :: r -> if x = k then i else f (i + 1) r in f 0 rl_zone_keys
+let op_rl_from a =
+  let id = num a "e" 0 in
+  if (rl_get id).rl_ep_conn then begin
+    let zid = z_of_int id and znow = z_of_int !now and ts = z_of_int (num a "ts" 0) in
+    let oz = z_of_int (rl_zone_id (str a "oz" "-")) in
+    let sec = rl_sec_of_key (str a "sec" "-") in
+    let mid = z_of_int (num a "id" 0) in
+    let g = !rl_g in
+    let eps0 = rl_eps_now () in
+    let fz = int_of_z (rl_from_origin_zone rl_topo0 eps0 zid oz) in
+    let zname = if fz >= 0 && fz < List.length rl_zone_keys then Some (zl_of_string ("rl-" ^ List.nth rl_zone_keys fz)) else None in
+    let msg = rl_mk_omsg zname mid znow in
+    let item = rl_item_string (RlOutMsg msg) in
+    let line acc logged live eps1 =
+      let live = List.sort compare (List.map int_of_z live) in
+      let ls = String.concat ";" (List.map (fun i -> Printf.sprintf "%d=%s" i item) live) in
+      Printf.sprintf "rl_from e=%d accepted=%d logged=%d live=%s conn=%s pos0=%s pos=%s" id (if acc then 1 else 0) (if logged then 1 else 0)
+        (if ls = "" then "-" else ls)
+        (String.concat "" (List.map (fun e -> if e.rl_ep_conn then "1" else "0") eps0))
+        (String.concat "," (List.map (fun e -> zs e.rl_ep_pos) eps0))
+        (String.concat "," (List.map (fun e -> zs e.rl_ep_pos) eps1)) in
+    let lb = ref "" and lx = ref "" in
+    let g = if g.bok then begin
+        let r = rl_from rl_topo0 znow zid ts oz sec msg g.b in
+        lb := line r.rl_fr_acc r.rl_fr_logged r.rl_fr_live r.rl_fr_st.rl_eps;
+        { g with b = r.rl_fr_st } end else g in
+    let g = if g.xok then begin
+        let r = rl_x_from rl_topo0 znow zid ts oz sec [(z_of_int 1, msg)] g.x in
+        lx := line r.rl_xfr_acc r.rl_xfr_logged r.rl_xfr_live r.rl_xfr_st.rl_x_eps;
+        { g with x = r.rl_xfr_st } end else g in
     rl_g := g;
     rl_emit2 (fun () -> !lb) (fun () -> !lx) end
 
@@ -225,14 +264,43 @@ let oracle_c12_case script trace =
   let obs_eps : (int * int) array ref = ref [||] and obs_files = ref [] and obs_cur = ref 0 and have_obs = ref false in
   let damaged = ref false and corrupted = ref false in
   let pending_timer = ref None and pending_restart = ref None in
+  (* C12_position_only_moves_for_connected: a position that moved while the endpoint was away is remembered; if a later replay then
+     withholds entries owed above the position the endpoint really confirmed, that is reported (the consequence), else the move itself *)
+  let pending_move = ref None in
   let eps_obs () = List.mapi (fun i e -> if !have_obs && i < Array.length !obs_eps
                                 then { e with rl_ep_pos = z_of_int (fst (!obs_eps).(i)); rl_ep_rpos = z_of_int (snd (!obs_eps).(i)) } else e) (rl_glue_eps !main) in
+  (* the observation conn= pos0= pos= of rl_relay / rl_from: positions of endpoints that were not connected did not move *)
+  let check_posmove from l =
+    let t = toks_of l in
+    let gets k = match tok_val t k with Some v -> v | None -> "" in
+    let conn = gets "conn" and p0 = List.map int_of_string (split_on ',' (gets "pos0")) and p1 = List.map int_of_string (split_on ',' (gets "pos")) in
+    if String.length conn = List.length p0 && List.length p0 = List.length p1 && p0 <> [] then begin
+      let obs = List.mapi (fun i b -> (((conn.[i] = '1', false), z_of_int b), z_of_int (List.nth p1 i))) p0 in
+      if not (rl_or_posmove obs) && !pending_move = None then begin
+        let k = ref 0 in
+        List.iteri (fun i b -> if !k = 0 && conn.[i] <> '1' && b <> List.nth p1 i then k := i + 1) p0;
+        pending_move := Some (!k, Printf.sprintf "position-moved-while-away e=%d from=%s before=%d after=%d" !k from
+                                    (List.nth p0 (max 0 (!k - 1))) (List.nth p1 (max 0 (!k - 1)))) end end
+    else fail ("crash malformed position observation: " ^ l) in
   List.iter (fun line -> if !err = None then
     match parse_line line with
     | Some ("now", a) -> now := tnum (List.hd a.pos)
     | Some ("rl_init", a) -> both (fun () -> op_rl_init a); damaged := false; corrupted := false; have_obs := false;
-                             pending_timer := None; pending_restart := None
-    | Some ("rl_relay", a) -> ignore (pop ()); both (fun () -> op_rl_relay a)
+                             pending_timer := None; pending_restart := None;
+                             (match !pending_move with Some (_, m) -> fail m | None -> ())
+    | Some ("rl_from", a) ->
+      let id = num a "e" 0 in
+      rl_g := !main;
+      if (rl_get id).rl_ep_conn then begin
+        let l = pop () in
+        if !err = None then begin
+          check_posmove (string_of_int id) l end end;
+      have_obs := false;
+      both (fun () -> op_rl_from a)
+    | Some ("rl_relay", a) ->
+      let l = pop () in
+      if !err = None then check_posmove "local" l;
+      have_obs := false (* the log and the positions of skipped endpoints change *); both (fun () -> op_rl_relay a)
     | Some ("rl_conn", a) ->
       let l = pop () in
       if !err = None then begin
@@ -246,7 +314,15 @@ let oracle_c12_case script trace =
                     | [_; _; _; ts] when int_of_string ts >= 0 && int_of_string ts <= pos && not !damaged ->
                       fail (Printf.sprintf "resend e=%d pos=%d item=%s" id pos m)
                     | _ -> ()) msgs;
-        if int_of_z ep.rl_ep_dur = 0 then begin
+        (* an endpoint whose position moved while it was away: judged by the position the MODEL holds (= the one it confirmed) *)
+        if (match !pending_move with Some (k, _) -> k = id | None -> false) && not !damaged && int_of_z ep.rl_ep_dur <> 0 then begin
+          let mep = List.nth (rl_glue_eps !main) (id - 1) in
+          let log = rl_glue_log !main in
+          if rl_strict_b log && not (rl_or_damaged rl_topo0 mep.rl_ep_zone mep.rl_ep_pos log delivered) then
+            fail (Printf.sprintf "away-endpoint-not-replayed e=%d confirmed=%s got=%s (%s)" id (zs mep.rl_ep_pos) (String.concat "," msgs)
+                    (match !pending_move with Some (_, m) -> m | None -> "")) end;
+        if !err <> None then ()
+        else if int_of_z ep.rl_ep_dur = 0 then begin
           if msgs <> [] then fail (Printf.sprintf "replay-mismatch e=%d log_duration=0 but got=%s" id (String.concat "," msgs)) end
         else if not !damaged then begin
           let log = rl_glue_log !main in
@@ -317,6 +393,7 @@ let oracle_c12_case script trace =
       if num a "lax" 0 <> 0 then ignore (pop ());
       on main (fun () -> op_rl_corrupt a); on intact (fun () -> op_rl_trunc a)
     | _ -> ()) script;
+  (match !pending_move with Some (_, m) -> fail m | None -> ());
   !err
 
 let () =
@@ -329,6 +406,7 @@ let () =
   register_op "rl_ack" op_rl_ack;
   register_op "rl_recv" op_rl_recv;
   register_op "rl_timer" op_rl_timer;
+  register_op "rl_from" op_rl_from;
   register_op "rl_trunc" op_rl_trunc;
   register_op "rl_corrupt" op_rl_corrupt;
   register_op "rl_ls" op_rl_ls;
